@@ -499,6 +499,11 @@ def common_summaries():
             raise Unsupported(f"string comparison on {a!r} / {b!r} in {fn}")
         return [(st, Bool(a.s == b.s if fn.endswith('eq') else a.s != b.s))]
 
+    @reg(r'^(std::thread::)?panicking$')
+    def thread_panicking(ex, st, fn, argv):
+        # whether the current thread is unwinding is not something the encoded code controls: arbitrary
+        return [(st, Bool(st.fresh_bool('thread.panicking')))]
+
     @reg(r'^<(std::io::)?(error::)?ErrorKind as PartialEq>::(eq|ne)$')
     def errkind_eq(ex, st, fn, argv):
         a, b = as_enum(ex, st, deref(ex, st, argv[0])), as_enum(ex, st, deref(ex, st, argv[1]))
